@@ -172,6 +172,23 @@ Definition logmev (util : dict pv) (log_gi : dict pv) (av : avail) (choice : pv)
 Definition mev (util : dict pv) (log_gi : dict pv) (av : avail) (choice : pv) : res expr :=
   do l <- logmev util log_gi av choice; Ok (EUn Exp l).
 
+(* logmev_endogenous_sampling / mev_endogenous_sampling:
+   h = {i: v + log_gi[i] + correction[i] for i, v in util.items()}; _bioLogLogit(h, av, choice)
+   (av = None is turned into "always available" by LogLogit.__init__); the caller's dictionaries
+   are only read *)
+Definition es_h (util : dict pv) (log_gi correction : Z -> res pv) : res (dict pv) :=
+  mapM (fun kv => do g <- log_gi (fst kv); do c <- correction (fst kv);
+                  Ok (fst kv, padd (padd (snd kv) g) c)) util.
+Definition logmev_es_f (util : dict pv) (log_gi correction : Z -> res pv) (av : avail) (choice : pv)
+  : res expr :=
+  do h <- es_h util log_gi correction; Ok (loglogit_e h av choice).
+Definition logmev_endogenous_sampling (util log_gi : dict pv) (av : avail) (correction : dict pv)
+    (choice : pv) : res expr :=
+  logmev_es_f util (fun i => of_option 2 (get log_gi i)) (fun i => of_option 2 (get correction i)) av choice.
+Definition mev_endogenous_sampling (util log_gi : dict pv) (av : avail) (correction : dict pv)
+    (choice : pv) : res expr :=
+  do l <- logmev_endogenous_sampling util log_gi av correction choice; Ok (EUn Exp l).
+
 (* ------------------------------------------------------------------ nests.py *)
 Record nnest := mkNN { nn_param : pv; nn_alts : list Z }.
 Record cnest := mkCN { cn_param : pv; cn_alpha : dict pv }.
